@@ -23,6 +23,10 @@ def one(sid):
     props = sorted({p for k in meta.get('detected_by', {}) for p in re.findall(r'C\d\d', k)})
     if not props:
         props = [meta['property']]
+    if meta.get('recheck_props'):
+        props = meta['recheck_props']
+    if meta.get('recheck_note') and not meta.get('recheck_props'):
+        return sid, {'note': meta['recheck_note']}
     tmp = tempfile.mkdtemp(prefix='seedre_', dir='/var/tmp')
     try:
         shutil.copytree('/repo/include', os.path.join(tmp, 'include'))
@@ -47,6 +51,9 @@ def main():
     bad = 0
     with ThreadPoolExecutor(6) as ex:
         for sid, res in ex.map(one, ids):
+            if 'note' in res:
+                print('%-58s (not re-run: %s)' % (sid, res['note']), flush=True)
+                continue
             miss = {p: rc for p, rc in res.items() if rc != 1}
             if miss:
                 bad += 1
